@@ -24,6 +24,11 @@ class BlockStatement:
     def __init__(self, parallel=False, subcircuit=False, iterations=1, statements=None):
         self._parallel = bool(parallel)
         self._subcircuit = bool(subcircuit)
+        if isinstance(iterations, float):
+            # e.g. the value of a let constant
+            if not iterations.is_integer():
+                raise JaqalError(f"Subcircuit count {iterations} is not an integer.")
+            iterations = int(iterations)
         self._iterations = iterations
         if not self._subcircuit and self._iterations != 1:
             raise JaqalError("Only subcircuits may have iterations != 1")
